@@ -1,1 +1,102 @@
-fn main() {}
+//! Scriptable child process for C15 / C16.
+//!
+//! `vchild dump`  — creates `$VERIF_MARKER.<pid>` first thing, then prints (hex encoded, one
+//!                  record per line) its argv, its whole environment, its cwd and all of stdin.
+//! `vchild serve` — connects to the Unix socket `$VCHILD_SOCK`, announces its pid, and then
+//!                  executes commanded steps, acknowledging each:
+//!                  `o <n>` / `e <n>` write n bytes to stdout / stderr, `x` write one 0xFF
+//!                  byte to stdout, `co` / `ce` close stdout / stderr, `q <code>` exit.
+//! `vchild exit <code>` / `vchild echo <text>` — trivial helpers.
+
+use std::io::{BufRead, BufReader, Read, Write};
+use std::os::unix::ffi::OsStrExt;
+use std::os::unix::ffi::OsStringExt;
+
+fn hex(b: &[u8]) -> String {
+    let mut s = String::with_capacity(b.len() * 2);
+    for x in b {
+        s.push_str(&format!("{x:02x}"));
+    }
+    s
+}
+
+fn main() {
+    if let Some(m) = std::env::var_os("VERIF_MARKER") {
+        let mut p = m.into_vec();
+        p.extend_from_slice(format!(".{}", std::process::id()).as_bytes());
+        let _ = std::fs::write(std::ffi::OsString::from_vec(p), b"spawned");
+    }
+    let args: Vec<std::ffi::OsString> = std::env::args_os().collect();
+    let mode = args.get(1).map(|a| a.to_string_lossy().to_string()).unwrap_or_default();
+    match mode.as_str() {
+        "dump" => {
+            let out = std::io::stdout();
+            let mut o = out.lock();
+            for a in &args {
+                let _ = writeln!(o, "A {}", hex(a.as_bytes()));
+            }
+            for (k, v) in std::env::vars_os() {
+                let _ = writeln!(o, "E {} {}", hex(k.as_bytes()), hex(v.as_bytes()));
+            }
+            if let Ok(c) = std::env::current_dir() {
+                let _ = writeln!(o, "C {}", hex(c.as_os_str().as_bytes()));
+            }
+            let mut input = Vec::new();
+            let _ = std::io::stdin().read_to_end(&mut input);
+            let _ = writeln!(o, "I {}", hex(&input));
+            let _ = writeln!(o, "END");
+        }
+        "serve" => serve(),
+        "exit" => {
+            let code = args.get(2).and_then(|a| a.to_string_lossy().parse().ok()).unwrap_or(0);
+            std::process::exit(code);
+        }
+        "echo" => {
+            if let Some(a) = args.get(2) {
+                let _ = std::io::stdout().write_all(a.as_bytes());
+            }
+        }
+        _ => {}
+    }
+}
+
+fn serve() {
+    let Some(path) = std::env::var_os("VCHILD_SOCK") else { std::process::exit(90) };
+    let Ok(sock) = std::os::unix::net::UnixStream::connect(path) else { std::process::exit(91) };
+    let mut w = sock.try_clone().expect("clone socket");
+    let _ = writeln!(w, "p {}", std::process::id());
+    let r = BufReader::new(sock);
+    for line in r.lines() {
+        let Ok(line) = line else { break };
+        let parts: Vec<&str> = line.split_whitespace().collect();
+        match parts.as_slice() {
+            ["o", n] => {
+                let n: usize = n.parse().unwrap_or(0);
+                let buf = vec![b'o'; n];
+                unsafe { libc::write(1, buf.as_ptr().cast(), n) };
+            }
+            ["e", n] => {
+                let n: usize = n.parse().unwrap_or(0);
+                let buf = vec![b'e'; n];
+                unsafe { libc::write(2, buf.as_ptr().cast(), n) };
+            }
+            ["x"] => {
+                let b = [0xFFu8];
+                unsafe { libc::write(1, b.as_ptr().cast(), 1) };
+            }
+            ["co"] => unsafe {
+                libc::close(1);
+            },
+            ["ce"] => unsafe {
+                libc::close(2);
+            },
+            ["q", code] => {
+                let code: i32 = code.parse().unwrap_or(0);
+                // the exit is acknowledged by the process status, not over the socket
+                unsafe { libc::_exit(code) };
+            }
+            _ => {}
+        }
+        let _ = writeln!(w, "k");
+    }
+}
